@@ -66,7 +66,18 @@ def section_accuracy(rep, degree, mutate=None, irregular=False):
         mu = S.var('mu')
         S.C.dom += [z3.Real('mu') >= Fr(1, 5), z3.Real('mu') <= 5]
     for stype in ('rate', 'increment'):
-        if irregular:
+        if irregular == 'first':
+            # the examined interval [0, T] is the FIRST one, followed by an interval of mu T; the
+            # reading before it covers [-T, 0] (the documented assumption for the unknown interval
+            # of the first reading: equal to the next one)
+            t2 = Tt + mu * Tt
+            stamps = [J(0), Tt, t2]
+            if stype == 'rate':
+                rows = [list(w(J(0))) + list(f(J(0))), list(w_s) + list(f_s), list(w(t2)) + list(f(t2))]
+            else:
+                rows = [list(-W(-Tt)) + list(-Fi(-Tt)), list(W(Tt)) + list(Fi(Tt)), list(W(t2) - W(Tt)) + list(Fi(t2) - Fi(Tt))]
+            row = 0
+        elif irregular:
             t0 = -(mu * Tt)
             stamps = [t0, J(0), Tt]
             if stype == 'rate':
@@ -91,8 +102,10 @@ def section_accuracy(rep, degree, mutate=None, irregular=False):
         theta = inc[THETA_COLS].values[row]
         dv = inc[DV_COLS].values[row]
         R = _rotvec_matrix(O(list(theta)))
-        meta = {'check': 'accuracy', 'params': {'type': stype, 'degree': degree, 'irregular': bool(irregular)}}
-        if irregular:
+        meta = {'check': 'accuracy', 'params': {'type': stype, 'degree': degree, 'irregular': (irregular if irregular == 'first' else bool(irregular))}}
+        if irregular == 'first':
+            stype = stype + ' (irregular stamps, first interval, following interval mu T)'
+        elif irregular:
             stype = stype + ' (irregular stamps, preceding interval mu T)'
         if degree == 1:
             for k in range(ORD + 1):
@@ -164,6 +177,7 @@ CANARIES = [
     ('rate type uses end sample only', 2, ('SD', 'compute_increments_from_imu', 'gyro_increment = (a_gyro + 0.5 * b_gyro) * dt', 'gyro_increment = (a_gyro + b_gyro) * dt')),
     ('interval ratio ignored for increment sensors (behaviour before the repair)', 'irregular', ('SD', 'compute_increments_from_imu', 'scale = 1 / (6 * ratio * (1 + ratio))', 'scale = 1 / 12 + 0 * ratio')),
     ('rate samples scaled by the preceding interval', 'irregular', ('SD', 'compute_increments_from_imu', 'coning = np.cross(a_gyro, b_gyro) * dt ** 2 / 12', 'coning = np.cross(a_gyro, b_gyro) * dt * np.vstack((dt[:1], dt[:-1])) / 12')),
+    ('first row uses the last interval as its preceding one (wrap-around)', 'first', ('SD', 'compute_increments_from_imu', 'ratio = np.vstack((dt[:1], dt[:-1])) / dt', 'ratio = np.roll(dt, 1, axis=0) / dt')),
     ('rows stamped with the previous sample', 'table', ('SD', 'compute_increments_from_imu', 'index=imu.index[1:]', 'index=imu.index[:-1]')),
 ]
 
@@ -182,7 +196,7 @@ def run(run):
                'the matrix of the computed rotation vector is its exponential series (rotation vector = O(T)); exact real arithmetic',
                'sinusoidal signals at finite sampling intervals (1..160 ms) are outside: their Taylor coefficients are covered through the stated order only')
     for degree in (1, 2):
-        for irregular in (False, True):
+        for irregular in (False, True, 'first'):
             obls = section_accuracy(rep, degree, irregular=irregular)
             rep.finish(rep.batch(obls), PROP)
     obls = section_table(rep)
@@ -195,6 +209,8 @@ def run(run):
                 obls = section_table(rep, _mut(spec))
             elif deg == 'irregular':
                 obls = section_accuracy(rep, 1, _mut(spec), irregular=True)
+            elif deg == 'first':
+                obls = section_accuracy(rep, 1, _mut(spec), irregular='first')
             else:
                 obls = section_accuracy(rep, deg, _mut(spec))
         except common.HarnessError as e:
@@ -202,7 +218,7 @@ def run(run):
             continue
         rep.canary(name, obls)
     enga.restore()
-    run.bounds.update({'series order': 'T^%d' % ORD, 'signals': 'linear and quadratic polynomial signals, both sensor types', 'stamps': 'two samples (one interval) and three samples with a symbolic ratio mu in [0.2, 5] of the preceding interval to the examined one'})
+    run.bounds.update({'series order': 'T^%d' % ORD, 'signals': 'linear and quadratic polynomial signals, both sensor types', 'stamps': 'two samples (one interval); three samples with a symbolic ratio mu in [0.2, 5] of the preceding interval to the examined one; three samples where the examined interval is the first and is followed by one of mu times its length'})
 
 
 def validate(rep):
@@ -222,7 +238,7 @@ def validate(rep):
 
 
 # ------------------------------------------------------------------------------------------
-def _numeric(a, b, c, d, e, g, stype, T, mu=None):
+def _numeric(a, b, c, d, e, g, stype, T, mu=None, first=False):
     """(theta, dv) from the real function and the exact (C, dv) by fine RK4; mu: ratio of the
     preceding interval to the examined one [0, T] (three samples), None: two samples"""
     import numpy as np
@@ -234,7 +250,14 @@ def _numeric(a, b, c, d, e, g, stype, T, mu=None):
     W = lambda t: a * t + b * t**2 / 2 + c * t**3 / 3
     Fi = lambda t: d * t + e * t**2 / 2 + g * t**3 / 3
     row = 0
-    if mu is not None:
+    if mu is not None and first:
+        t2 = T + mu * T
+        if stype == 'rate':
+            rows = [np.hstack([w(0), f(0)]), np.hstack([w(T), f(T)]), np.hstack([w(t2), f(t2)])]
+        else:
+            rows = [np.hstack([-W(-T), -Fi(-T)]), np.hstack([W(T), Fi(T)]), np.hstack([W(t2) - W(T), Fi(t2) - Fi(T)])]
+        imu = pd.DataFrame(rows, columns=GYRO_COLS + ACCEL_COLS, index=[0.0, T, t2])
+    elif mu is not None:
         row = 1
         t0 = -mu * T
         if stype == 'rate':
@@ -266,13 +289,13 @@ def _numeric(a, b, c, d, e, g, stype, T, mu=None):
     return inc, inc[THETA_COLS].values[row], inc[DV_COLS].values[row], C, dv
 
 
-def _check_point(a, b, c, d, e, g, stype, linear, mu=None):
+def _check_point(a, b, c, d, e, g, stype, linear, mu=None, first=False):
     import numpy as np
     from scipy.spatial.transform import Rotation
     fails = []
     errs = {}
     for T in (0.04, 0.02):
-        inc, th, dv, C, dvx = _numeric(a, b, c, d, e, g, stype, T, mu)
+        inc, th, dv, C, dvx = _numeric(a, b, c, d, e, g, stype, T, mu, first)
         R = Rotation.from_rotvec(th).as_matrix()
         disc = dvx - dv
         if linear:
@@ -286,7 +309,7 @@ def _check_point(a, b, c, d, e, g, stype, linear, mu=None):
         # the error must fall at the documented order when the interval is halved (errors at the
         # rounding level are exempt); and must not sit far above the natural O(T^p) size
         if e1 > 1e-11 * sc and not (e2 > 0 and e1 / e2 > 2 ** (p - 0.6)):
-            fails.append('%s%s %s error %.3g at T=0.04 (%.3g at 0.02, ratio %.2f) does not fall like T^%d' % (stype, '' if mu is None else ' (preceding interval %.3g T)' % mu, what, e1, e2, e1 / max(e2, 1e-300), p))
+            fails.append('%s%s %s error %.3g at T=0.04 (%.3g at 0.02, ratio %.2f) does not fall like T^%d' % (stype, '' if mu is None else (' (first interval, following interval %.3g T)' if first else ' (preceding interval %.3g T)') % mu, what, e1, e2, e1 / max(e2, 1e-300), p))
         elif e1 > 50 * sc ** (p + 1) * 0.04 ** p:
             fails.append('%s %s error %.3g at T=0.04 far above the O(T^%d) level' % (stype, what, e1, p))
     return fails
@@ -304,6 +327,7 @@ def replay(spec):
                 bad += _check_point(a, b, z, d, e, z, st, True)
                 bad += _check_point(a, b, rng.uniform(-2, 2, 3), d, e, rng.uniform(-2, 2, 3), st, False)
                 bad += _check_point(a, b, z, d, e, z, st, True, mu=float(rng.choice([0.4, 0.7, 1.6, 3.0])))
+                bad += _check_point(a, b, z, d, e, z, st, True, mu=float(rng.choice([0.4, 0.7, 1.6, 3.0])), first=True)
         # repo test: constant signals
         return {'violated': bool(bad), 'detail': bad}
     pt = spec['point']
@@ -330,5 +354,5 @@ def replay(spec):
         mu = pt.get('mu', 0.5)
         if abs(mu - 1) < 0.05:
             mu = 0.5        # at equal intervals the irregular table is the regular one
-    fails = _check_point(a, b, c, d, e, g, pr.get('type', 'rate'), linear, mu)
+    fails = _check_point(a, b, c, d, e, g, pr.get('type', 'rate'), linear, mu, first=(pr.get('irregular') == 'first'))
     return {'violated': bool(fails), 'detail': fails}
